@@ -276,7 +276,10 @@ class AllFixedSizeElementLocator : public BaseAllFixedSizeElementLocator
     using FixedSizesArray = typename detail::ParameterListTraits<Parameter...>::FixedSizesArray;
 
   public:
-    AllFixedSizeElementLocator() = default;
+    constexpr AllFixedSizeElementLocator() noexcept
+        : BaseAllFixedSizeElementLocator({}, ElementTraits::calculate_element_size(FixedSizesArray{}).stride)
+    {
+    }
 
     template <class Allocator>
     constexpr AllFixedSizeElementLocator(std::size_t, std::byte*, ElementSize element_stride, const Allocator&) noexcept
